@@ -30,11 +30,24 @@ fn regenerate(c: &RefCell<u64>) -> u64 {
 
     loop {
         let rnd = rng.next_u64();
+        #[cfg(kismet_verif)]
+        let rnd = crate::verif_hooks::scripted_u64(rnd);
         if rnd > 0 {
             c.replace(rnd);
             return rnd;
         }
     }
+}
+
+/// Verification hook: reads (and optionally overwrites) the thread's counter.
+#[cfg(kismet_verif)]
+pub(crate) fn verif_counter(set: Option<u64>) -> u64 {
+    COUNTER.with(|c| {
+        if let Some(v) = set {
+            c.replace(v);
+        }
+        *c.borrow()
+    })
 }
 
 /// Decrements the counter by `weight`.  Returns true (and resets the
